@@ -3,7 +3,7 @@ CONSTANTS
   NSet <- MCN
   GapsOf <- MCGaps
   YsOf <- MCYs
-  OffSet <- MCOff
+  OffsOf <- MCOff
   LongN <- MCLong
   Q = 8
   Emit = TRUE
